@@ -83,6 +83,12 @@ def inventory(spec):
     return edge, attr
 
 
+def top_role(spec):
+    if spec['kind'] == 'custom':
+        return spec['spec'].get('top_role', ':TOP')
+    return ':TOP'
+
+
 def invalid_roles(spec):
     """roles NOT defined by the model, neither directly nor as single inversion"""
     kind = spec['kind']
@@ -94,4 +100,4 @@ def invalid_roles(spec):
     s = spec['spec']
     if ':mod' in s['roles']:
         return [':foo', ':ARG', ':part', ':location', ':bar-of', ':ARG0-of-of']
-    return [':foo', ':Rd', ':x', ':R', ':Ra-of-of']
+    return [':foo', ':Rd', ':x', ':R', ':Ra-of-of', ':TOP']      # :TOP is not defined here (top role is :ROOT)
